@@ -236,9 +236,12 @@ void World::opMkMinterm(const Step &s)
     const Dom &D = doms[F.spec.dom].m;
     Rng R(s.seed);
     SymMT sm;
-    genSym(R, D, F.spec.rel, sm, s.a[1] % 60, s.a[2] % 40);
+    const int mflavour = ((s.a[3] >> 3) % 5 == 0) ? 3 : (((s.a[3] >> 3) % 5 == 1) ? 4 : 0);
+    // neutral-element values go with identity patterns (don't care -> unchanged)
+    if (mflavour == 4 && F.spec.rel) genSym(R, D, true, sm, 70, 70);
+    else genSym(R, D, F.spec.rel, sm, s.a[1] % 60, s.a[2] % 40);
     Val deflt = defaultOf(F.kind());
-    Val val = randomValue(R, F.kind(), ((s.a[3] >> 3) % 5 == 0) ? 3 : (((s.a[3] >> 3) % 5 == 1) ? 4 : 0));
+    Val val = randomValue(R, F.kind(), mflavour);
     if (F.kind() == FK_MTB) val = Val::b(true);
     if (val.inf && F.kind() != FK_EVP && F.kind() != FK_IDX) val = defaultOf(F.kind());
     // KF-C03-1 (known_findings.txt): a minterm whose value is the forest's
